@@ -1,5 +1,5 @@
 (* C02 — exactly the blocks of heights start..min(end,tip) are delivered, once, ascending. Pinned statements only. *)
-From RBP Require Import Bytes Index Model ModelP.
+From RBP Require Import Bytes Index Model ModelP Render NamesP.
 From RBP Require Drive.
 
 (* max_height = min(--end, highest indexed height); the index kept for the run agrees with the full one on start-1..max *)
@@ -55,6 +55,10 @@ Theorem C02_opreturn_range_is_slice (p:N * eblock -> bool) delivered :
   opreturn_lines (filter p delivered) = flat_map (fun hb => if p hb then opreturn_lines [hb] else []) delivered.
 Proof. exact (opreturn_lines_slice p delivered). Qed.
 
+Theorem C02_names_carry_start_and_last_height :
+  forall (st : bytes) (s e : N) (st' : bytes) (s' e' : N), no_dash st -> no_dash st' -> s < 2 ^ 64 -> e < 2 ^ 64 -> s' < 2 ^ 64 -> e' < 2 ^ 64 -> final_name st s e = final_name st' s' e' -> st = st' /\ s = s' /\ e = e'.
+Proof. exact final_name_inj. Qed.
+
 Print Assumptions C02_max_height.
 Print Assumptions C02_delivers_exact_range.
 Print Assumptions C02_heights_are_the_range.
@@ -65,3 +69,4 @@ Print Assumptions C02_outside_never_read.
 Print Assumptions C02_range_sees_same_blocks.
 Print Assumptions C02_csv_range_is_slice.
 Print Assumptions C02_opreturn_range_is_slice.
+Print Assumptions C02_names_carry_start_and_last_height.
